@@ -112,7 +112,7 @@ PROPS = {
   "technique": "Coq inductive invariant over all operation sequences + differential replay",
  },
  "C05": {
-  "tests": ["TestC05", "TestC05Races"],
+  "tests": ["TestC05", "TestC05Races", "TestC05Stress"],
   "rule": "default limiter over all four strategy kinds with a scripted limit double (estimates 0, negative, repeated, large), random histories plus closing bursts that fill and close windows "
           "at instants around the period end; after every forwarded window the strategy limit and every share are checked; a real-time replay of two overlapping window updates with a slow strategy; non-trivial = a distinct closed window",
   "level_text": "C05_sync_init, C05_sync_update (same step as the forwarded sample), C05_shares_follow (SetLimit keeps the invariant 'every live bin has the share of the current total').",
@@ -148,7 +148,7 @@ PROPS = {
   "technique": "Coq theorems + generated constructor table obligation + differential replay",
  },
  "C12": {
-  "tests": ["TestC12", "TestC12Races"],
+  "tests": ["TestC12", "TestC12Races", "TestC12Stress"],
   "rule": "as C10 on queue limiters with small bounds; after every operation backlog length (accessor) and the queue_size gauge are compared with the number of blocked callers; arrivals at a full backlog "
           "must be refused in the same instant; plus race replays F9b/F11; non-trivial = an arrival at a full backlog",
   "level_text": "C12_bound proved on the settled model; at step granularity the bound and the exactness are REFUTED (C12_bound_refuted = F11, C12_exact_refuted = F9b), replayed as known findings.",
@@ -186,7 +186,7 @@ PROPS = {
   "technique": "Coq/Flocq monotonicity theorem + differential replay of twin runs",
  },
  "C20": {
-  "tests": ["TestC20", "TestC20Strategies", "TestC20Registry"],
+  "tests": ["TestC20", "TestC20Strategies", "TestC20Concurrent", "TestC20Registry"],
   "rule": "all six limit kinds (plain, traced) on a recording registry: every sample's emissions (kind = how the metric was registered, name, value) are compared with the model and with the oracle; "
           "strategies' in-flight samples and limit gauges are checked by driving all four strategies through random acquire/release/SetLimit histories (including limits lowered below the tokens outstanding); the go-metrics registry is driven through random Start/Stop/Register/Tick sequences on a virtual clock "
           "and polls are counted per period; the datadog registry is exercised once over a loopback UDP socket in real time; non-trivial = a distinct sample emission / tick situation",
